@@ -233,7 +233,7 @@ UDEC_ALPHA = [0x41, 0x7f, 0x80, 0xbf, 0xc0, 0xc1, 0xc2, 0xc3, 0xa9, 0xdf, 0xe0, 
 
 
 def gen_cases(rng, tier):
-    n = {"quick": 400, "thorough": 5000, "search": 400}[tier]
+    n = {"quick": 200, "thorough": 3000, "search": 400}[tier]
     cases = []
     if tier != "search":
         ex = [b"", b"a", b" ", b"a b", b"a "]
